@@ -78,13 +78,18 @@ pub(crate) struct Circuit {
     state: CircuitState,
     state_atomic: std::sync::Arc<AtomicU8>,
     last_state_change: std::time::Instant,
-    // Count-based window tracking
+    // Count-based window tracking (the counters mirror `count_window`)
     failure_count: usize,
     success_count: usize,
     total_count: usize,
     slow_call_count: usize,
+    // Outcomes (is_failure, is_slow) of the last `sliding_window_size` calls
+    count_window: VecDeque<(bool, bool)>,
     // Time-based window tracking
     call_records: VecDeque<CallRecord>,
+    // Half-open trial tracking (independent of the window type)
+    half_open_successes: usize,
+    half_open_completed: usize,
 }
 
 impl Default for Circuit {
@@ -110,7 +115,39 @@ impl Circuit {
             success_count: 0,
             total_count: 0,
             slow_call_count: 0,
+            count_window: VecDeque::new(),
             call_records: VecDeque::new(),
+            half_open_successes: 0,
+            half_open_completed: 0,
+        }
+    }
+
+    /// Records one outcome in the count-based window and evicts the oldest
+    /// outcome once more than `sliding_window_size` calls are tracked.
+    fn push_count_record(&mut self, window_size: usize, is_failure: bool, is_slow: bool) {
+        self.count_window.push_back((is_failure, is_slow));
+        self.total_count += 1;
+        if is_failure {
+            self.failure_count += 1;
+        } else {
+            self.success_count += 1;
+        }
+        if is_slow {
+            self.slow_call_count += 1;
+        }
+
+        while self.count_window.len() > window_size.max(1) {
+            if let Some((old_failure, old_slow)) = self.count_window.pop_front() {
+                self.total_count -= 1;
+                if old_failure {
+                    self.failure_count -= 1;
+                } else {
+                    self.success_count -= 1;
+                }
+                if old_slow {
+                    self.slow_call_count -= 1;
+                }
+            }
         }
     }
 
@@ -205,11 +242,7 @@ impl Circuit {
         // Update statistics based on window type
         match config.sliding_window_type {
             SlidingWindowType::CountBased => {
-                self.success_count += 1;
-                self.total_count += 1;
-                if is_slow {
-                    self.slow_call_count += 1;
-                }
+                self.push_count_record(config.sliding_window_size, false, is_slow);
             }
             SlidingWindowType::TimeBased => {
                 if let Some(window_duration) = config.sliding_window_duration {
@@ -257,11 +290,9 @@ impl Circuit {
 
         match self.state {
             CircuitState::HalfOpen => {
-                let success_count = match config.sliding_window_type {
-                    SlidingWindowType::CountBased => self.success_count,
-                    SlidingWindowType::TimeBased => self.time_based_stats().2,
-                };
-                if success_count >= config.permitted_calls_in_half_open {
+                self.half_open_successes += 1;
+                self.half_open_completed += 1;
+                if self.half_open_successes >= config.permitted_calls_in_half_open {
                     self.transition_to(CircuitState::Closed, config);
                 }
             }
@@ -284,11 +315,7 @@ impl Circuit {
         // Update statistics based on window type
         match config.sliding_window_type {
             SlidingWindowType::CountBased => {
-                self.failure_count += 1;
-                self.total_count += 1;
-                if is_slow {
-                    self.slow_call_count += 1;
-                }
+                self.push_count_record(config.sliding_window_size, true, is_slow);
             }
             SlidingWindowType::TimeBased => {
                 if let Some(window_duration) = config.sliding_window_duration {
@@ -378,8 +405,7 @@ impl Circuit {
                 }
             }
             CircuitState::HalfOpen => {
-                let permitted =
-                    self.success_count + self.failure_count < config.permitted_calls_in_half_open;
+                let permitted = self.half_open_completed < config.permitted_calls_in_half_open;
                 if permitted {
                     config
                         .event_listeners
@@ -411,6 +437,17 @@ impl Circuit {
 
     pub fn reset<C>(&mut self, config: &CircuitBreakerConfig<C>) {
         self.transition_to(CircuitState::Closed, config);
+        // Already closed: there is no transition, but the window is emptied all the same
+        self.clear_window();
+    }
+
+    fn clear_window(&mut self) {
+        self.success_count = 0;
+        self.failure_count = 0;
+        self.total_count = 0;
+        self.slow_call_count = 0;
+        self.count_window.clear();
+        self.call_records.clear();
     }
 
     fn transition_to<C>(&mut self, state: CircuitState, config: &CircuitBreakerConfig<C>) {
@@ -462,11 +499,9 @@ impl Circuit {
         self.state = state;
         self.state_atomic.store(state as u8, Ordering::Release);
         self.last_state_change = clock_now();
-        self.success_count = 0;
-        self.failure_count = 0;
-        self.total_count = 0;
-        self.slow_call_count = 0;
-        self.call_records.clear();
+        self.clear_window();
+        self.half_open_successes = 0;
+        self.half_open_completed = 0;
     }
 
     fn evaluate_window<C>(&mut self, config: &CircuitBreakerConfig<C>) {
